@@ -2,7 +2,8 @@
    non-trivial document (a deep and a shallow history in different sub-trees, executable content on a default
    transition, a run that enters through both histories without and with a recorded value), and the new static
    conditions cannot be dropped (witnesses by computation) -- except leaf_okb, for which no deviation is known
-   (the example at the end conforms although it violates it).  *)
+   (the example at the end conforms although it violates it).  A transition that names the same <history> twice
+   conforms (Spec.v keeps defaultHistoryContent as a table: an assignment replaces an earlier one).  *)
 From V Require Import Base NameMatch NameMatchLemmas Chart Exec Large LargeLemmas Spec Interp WfCore SelectConform SelectConformLemmas SelectConformRoot
   MicroConform MicroConformFlatten Serialize LargeCacheLemmas EngineEquivDone ExitSetLemmas
   RunConformBase RunConformInit RunConformStep RunConformLoop RunConformWitness LegalHistBase LegalHistEntry LegalHistWf
@@ -69,7 +70,7 @@ Qed.
 
 Definition static_h_parts_of (c : fchart) :=
   (wf_histb c, root_compoundb c, par_nonemptyb c, targets_antichainb c, done_okb c, root_silentb c,
-   (cpl_okb c, cpl_antib c, targets_noinitb c), (hist_target_localb c, hist_targets_nodupb c, leaf_okb c),
+   (cpl_okb c, cpl_antib c, targets_noinitb c), (hist_target_localb c, leaf_okb c),
    (root_unmentionedb c, chart_named c, root_onexit_emptyb c), root_plainb c).
 
 (* known finding C01-K5 at run level.  ExitSetLemmas.w_hist_target:
@@ -82,7 +83,7 @@ Definition static_h_parts_of (c : fchart) :=
    run; the corner is in Appendix D. *)
 Lemma run_hist_target_enclosing_refuted :
   exists late t evs fuel, let c := flatten late t in
-    static_h_parts_of c = (true, true, true, true, true, true, (true, true, true), (false, true, true), (true, true, true), true) /\
+    static_h_parts_of c = (true, true, true, true, true, true, (true, true, true), (false, true), (true, true, true), true) /\
     run_guardb c evs fuel = true /\ run_completeb c evs fuel = true /\ views_differ late t evs fuel.
 Proof.
   exists false, w_hist_target, [[101]], 20%nat.
@@ -93,27 +94,35 @@ Qed.
 (* target="s3 s3" with s3 a history without a value:
      <state id="s1"><transition event="e" target="s3 s3"/></state>
      <state id="s2"> <history id="s3"><transition target="s4"> log </transition></history> <state id="s4"/> </state>
-   Spec.v keeps defaultHistoryContent as a LIST of (parent, transition) pairs and executes every pair of the entered
-   state: the default content runs twice.  The engine runs it once.  Appendix D assigns into a TABLE
-   (defaultHistoryContent[state.parent.id] = ...): once.  Here the transliteration Spec.v is not Appendix D; the
-   engine is. *)
-Lemma run_hist_target_twice_refuted :
-  exists late t evs fuel, let c := flatten late t in
-    static_h_parts_of c = (true, true, true, true, true, true, (true, true, true), (true, false, true), (true, true, true), true) /\
-    run_guardb c evs fuel = true /\ run_completeb c evs fuel = true /\ views_differ late t evs fuel.
+   Appendix D assigns defaultHistoryContent[s2] twice (a table: the second assignment replaces the first) and runs the
+   content once after the onentry of s2; so does the engine.  (With defaultHistoryContent as a LIST of pairs, as Spec.v
+   once had it, the content ran twice: this document was the witness.) *)
+Definition hw_twice : tree :=
+  TNode KScxml 0 None [] [] [] []
+    [TNode KState 1 None [rw_tr 101 (Some [101]) None (Some [3; 3]) false []] [] [] [] [];
+     TNode KState 2 None [] [] [] [] [hist_el KHistShallow 3 120 [4] [ILog 301 (INum 1)]; leaf_st 4]].
+
+Example run_hist_target_twice_hypotheses :
+  let c := flatten false hw_twice in
+  static_hb c = true /\ run_guardb c [[101]] 20 = true /\ run_completeb c [[101]] 20 = true /\
+  spec_view 0 (fst (run_large lg_fixed ex_fixed false hw_twice [[101]] 20)) =
+    [TMsB; TEb 1; TEe 1; TMsE; TCfg [1]; TEv [101]; TMsB; TXb 1; TXe 1; TTb 101; TTe 101; TEb 2; TEe 2;
+     TTb 120; TCb 301; TLog 1; TCe 301; TTe 120; TEb 4; TEe 4; TMsE; TCfg [2; 4]].
+Proof. vm_compute. repeat split. Qed.
+
+(* an instance of run_conforms_history (no computation of the Spec side) *)
+Theorem run_hist_target_twice_conforms : forall fuel', (20 <= fuel')%nat ->
+  spec_view 0 (fst (run_large lg_fixed ex_fixed false hw_twice [[101]] 20)) = spec_view 0 (fst (run_spec false hw_twice [[101]] fuel')) /\
+  snd (run_large lg_fixed ex_fixed false hw_twice [[101]] 20) = snd (run_spec false hw_twice [[101]] fuel').
 Proof.
-  exists false,
-    (TNode KScxml 0 None [] [] [] []
-       [TNode KState 1 None [rw_tr 101 (Some [101]) None (Some [3; 3]) false []] [] [] [] [];
-        TNode KState 2 None [] [] [] [] [hist_el KHistShallow 3 120 [4] [ILog 301 (INum 1)]; leaf_st 4]]), [[101]], 20%nat.
-  split; [vm_compute; reflexivity|]. split; [vm_compute; reflexivity|]. split; [vm_compute; reflexivity|].
-  unfold views_differ. vm_compute. discriminate.
+  intros fuel' H. destruct run_hist_target_twice_hypotheses as (A & B & C & _).
+  exact (run_conforms_hist_lemma false hw_twice A [[101]] 20%nat B C fuel' H).
 Qed.
 
 (* a transition whose target is an <initial> element (the witness of RunConformInitialWitness.v): still excluded *)
 Lemma run_target_initial_element_hist_refuted :
   exists late t evs fuel, let c := flatten late t in
-    static_h_parts_of c = (true, true, true, true, true, true, (true, true, false), (true, true, true), (true, true, true), true) /\
+    static_h_parts_of c = (true, true, true, true, true, true, (true, true, false), (true, true), (true, true, true), true) /\
     run_guardb c evs fuel = true /\ run_completeb c evs fuel = true /\ views_differ late t evs fuel.
 Proof.
   exists false,
@@ -136,7 +145,7 @@ Definition hw_final_child : tree :=
 
 Example run_final_with_child_agrees :
   let c := flatten false hw_final_child in let evs := [[101]; [102]; [103]] in
-  static_h_parts_of c = (true, true, true, true, true, true, (true, true, true), (true, true, false), (true, true, true), true) /\
+  static_h_parts_of c = (true, true, true, true, true, true, (true, true, true), (true, false), (true, true, true), true) /\
   run_guardb c evs 30 = true /\ run_completeb c evs 30 = true /\
   spec_view 0 (fst (run_large lg_fixed ex_fixed false hw_final_child evs 30)) = spec_view 0 (fst (run_spec false hw_final_child evs 30)).
 Proof. vm_compute. repeat split. Qed.
